@@ -6,7 +6,12 @@ Tie (re-run on every check):
     validate_trailers and Python's int(bytes);
   * suite `stream`: op-sequence correspondence of the content-length bookkeeping model against a real H3Connection
     (stub QuicConnection, HEADERS blocks encoded by a real pylsqpack encoder, DATA frames cut at chosen points);
-  * suite `e2e`: single HEADERS / trailers / PUSH_PROMISE frames through a real H3Connection, model = validators.
+  * suite `e2e`: single HEADERS / trailers / PUSH_PROMISE frames through a real H3Connection, model = validators;
+  * suite `events`: whole connections (several streams, random chunking, QPACK encoder stream before / after the
+    message streams = BLOCKED / RESUME schedules, local end of stream, mutated header lists and bodies) through the
+    composed model coq/model/H3Events.v (exec_h3events: C14's receive path H3Parse.v with the real Gallina validators
+    plugged in; only QPACK's answers are recorded from the real pylsqpack) against a real H3Connection, every event
+    and close code compared.
 Every suite also runs the *implementation oracle*: the property's rules coded directly in Python (independent of the
 model) on the implementation's observable behaviour (return / exception class / events / close code)."""
 import itertools
@@ -14,7 +19,9 @@ import json
 
 from vlib import core, corr
 
-DEPENDS = ["C15Tables (generated)", "H3Validate", "H3ValidateSpec", "H3ValidateProofs", "H3StreamProofs", "Base", "Tok", "C15"]
+DEPENDS = ["C15Tables (generated)", "H3Validate", "H3ValidateSpec", "H3ValidateProofs", "H3StreamProofs", "Base", "Tok", "C15",
+           "H3Parse (C14's model, read-only)", "H3Events", "H3EventsSpec", "H3EventsProofs", "H3EventsLoop", "H3EventsConn", "H3EventsThm",
+           "harness/props/h3common.py (C14/C16: stub transport, recording QPACK proxies, generators)"]
 TRUSTED_BASE = [
     "extraction (ExtrOcamlBasic only; Z kept as the extracted inductive) + coq/extract/driver.ml for running the model",
     "tools/gen/c15_tables.py (Python ast -> coq/gen/C15Tables.v: constants, per-character predicates, pseudo-header tables, "
@@ -22,12 +29,18 @@ TRUSTED_BASE = [
     "correspondence harness harness/props/c15.py + harness/vlib/corr.py (decides what 'agree' means)",
     "modelled, not verified: validate_headers control flow, CPython 3.12 int(bytes) grammar incl. the 4300-digit limit, "
     "the DATA/HEADERS content-length bookkeeping of _receive_request_or_push_data restricted to whole HEADERS frames and "
-    "DATA frames cut inside the payload; QPACK (pylsqpack) and the frame parser are outside the model (C14)",
+    "DATA frames cut inside the payload (H3Validate's stream model); the full frame parser, stream table and resume pass are "
+    "C14's hand-written model coq/model/H3Parse.v, tied to the code by correspondence runs (suite events here, C14's suites)",
+    "QPACK (pylsqpack) is an oracle in the composed model: any header list / blocked / failed for any bytes; the events "
+    "theorems hold for every such oracle",
 ]
 ASSUMPTIONS = [
     "header lists reaching the validators are lists of (bytes, bytes) pairs (what pylsqpack's decoder returns)",
     "sys.get_int_max_str_digits() is the default 4300",
-    "stream theorem: QUIC events carry whole HEADERS frames; DATA frames may be cut anywhere inside the payload; no QPACK blocking",
+    "content_length_matches (H3Validate stream model): QUIC events carry whole HEADERS frames; DATA frames may be cut anywhere inside the payload; no QPACK blocking",
+    "events_* theorems (composed model): trace_ok = QUIC delivers no stream data after a stream's FIN and the application ends "
+    "the sending side of a stream at most once; fx_pushblock = the tree has fix c68d1c5 (a blocked PUSH_PROMISE is resumed as "
+    "a PUSH_PROMISE); every other fix flag, every byte string, chunking, interleaving and QPACK answer is arbitrary",
 ]
 
 H3_MESSAGE_ERROR = 0x10E
@@ -953,41 +966,41 @@ def ev_oracle(case):
             if isinstance(e, E.HeadersReceived):
                 hs = [tuple(h) for h in e.headers]
                 if st["n"] >= 2:
-                    return ("stream %d: a third HeadersReceived" % e.stream_id, {"site": "h3-event", "rule": "headers-after-trailers"})
+                    return ("stream %d: a third HeadersReceived" % e.stream_id, {"site": "h3-event", "suite": "events", "rule": "headers-after-trailers"})
                 kind = first_kind if st["n"] == 0 else 3
                 st["n"] += 1
                 b = rule_broken(kind, hs)
                 if b:
                     return ("stream %d: HeadersReceived (%s) breaks rule '%s': %r" % (e.stream_id, KINDS[kind], b, hs),
-                            {"site": "h3-event", "rule": b, "kind": KINDS[kind]})
+                            {"site": "h3-event", "suite": "events", "rule": b, "kind": KINDS[kind]})
                 if kind != 3:
                     d = declared_content_length(hs)
                     if d == "conflicting":
                         return ("stream %d: HeadersReceived with conflicting content-length" % e.stream_id,
-                                {"site": "h3-event", "rule": "content-length-conflicting"})
+                                {"site": "h3-event", "suite": "events", "rule": "content-length-conflicting"})
                     if d == "invalid":
                         return ("stream %d: HeadersReceived with an unparsable content-length" % e.stream_id,
-                                {"site": "h3-event", "rule": "content-length-syntax"})
+                                {"site": "h3-event", "suite": "events", "rule": "content-length-syntax"})
                     st["declared"] = d
             elif isinstance(e, E.PushPromiseReceived):
                 hs = [tuple(h) for h in e.headers]
                 b = rule_broken(2, hs)
                 if b or not client:
                     return ("stream %d: PushPromiseReceived breaks rule '%s': %r" % (e.stream_id, b, hs),
-                            {"site": "h3-event", "rule": b or "push-promise-at-server", "kind": "push_promise"})
+                            {"site": "h3-event", "suite": "events", "rule": b or "push-promise-at-server", "kind": "push_promise"})
             elif isinstance(e, E.DataReceived):
                 if e.data and st["n"] != 1:
                     return ("stream %d: %d body bytes delivered %s" % (e.stream_id, len(e.data),
                                                                       "before the headers" if st["n"] == 0 else "after the trailers"),
-                            {"site": "h3-event", "rule": "data-out-of-order"})
+                            {"site": "h3-event", "suite": "events", "rule": "data-out-of-order"})
                 st["body"] += len(e.data)
             if getattr(e, "stream_ended", False):
                 st["ended"] += 1
                 if isinstance(st["declared"], int) and st["declared"] != st["body"]:
                     return ("stream %d: stream_ended event with declared content-length %d but %d body bytes delivered"
-                            % (e.stream_id, st["declared"], st["body"]), {"site": "h3-event", "rule": "content-length-mismatch"})
+                            % (e.stream_id, st["declared"], st["body"]), {"site": "h3-event", "suite": "events", "rule": "content-length-mismatch"})
     if r.after_close_events:
-        return ("events returned together with / after a connection close", {"site": "h3-event", "rule": "event-and-close"})
+        return ("events returned together with / after a connection close", {"site": "h3-event", "suite": "events", "rule": "event-and-close"})
     return None
 
 
@@ -1055,17 +1068,14 @@ def gen_blocked_cl_case(rng):
     for i in range(nstreams):
         base = [(b":status", rng.choice([b"200", b"404"]))] if client else list(hc.REQ)
         cl = rng.choice(EV_CL)
-        hs = base + ([(b"content-length", cl)] if cl is not None else []) + [marker]
+        # without the marker the message headers decode at once and only the trailers have to wait
+        hs = base + ([(b"content-length", cl)] if cl is not None else []) + ([marker] if rng.random() < 0.7 else [])
         if rng.random() < 0.15:
             hs.insert(len(base), (b"content-length", rng.choice(EV_CL[1:])))
         if rng.random() < 0.2:
             hs = _mutate_headers(rng, hs)
         plans.append(hs)
-    for hs in plans:                               # first sighting: the encoder inserts the fields
-        try:
-            wire.block(400, hs)
-        except ValueError:
-            pass
+    wire.block(400, [marker])                      # first sighting; the second one is inserted and referenced
     wire.block(400, [tmark])
     per, sids = {}, []
     for i, hs in enumerate(plans):
@@ -1321,6 +1331,10 @@ def run(ctx):
         "as header; random mostly-valid lists with one mutation, pool lists and random bytes. stream: content-length spelling "
         "x body size x DATA frame splits x FIN placement (exhaustive small scope) + random histories. e2e: the same header "
         "lists as single HEADERS/trailers/PUSH_PROMISE frames through a real H3Connection with pylsqpack-encoded blocks. "
+        "events: whole connections (1-3 message streams, control / QPACK streams, push and WebTransport streams, random "
+        "chunking and interleaving, encoder stream before or after the blocks that need it, FIN before / after the unblocking, "
+        "local end of stream, content-length spellings x body sizes, mutated header lists, the validate suite's lists as "
+        "HEADERS / trailers / PUSH_PROMISE inside a message) through exec_h3events vs a real H3Connection. "
         "distinct = distinct token encoding; non-trivial = validates at least one header / delivers at least one event",
         {"exhaustive_small_scope": True, "extraction_vs_vm_compute_cases": vm_checked, "qpack_unencodable_skipped": {"stream_cases": skipped, "e2e_ops": skipped_e},
          "events_suite": dict(EV_STATS), "end_marker_without_headers_replay": witness})
